@@ -3,12 +3,15 @@ package checks
 import (
 	"encoding/json"
 	"fmt"
+	"reflect"
 	"strings"
+	"time"
 
 	rt "github.com/enbility/spine-go/internal/verifrt"
 
 	"github.com/enbility/spine-go/api"
 	"github.com/enbility/spine-go/internal/verifh/engine"
+	"github.com/enbility/spine-go/internal/verifh/refl"
 	"github.com/enbility/spine-go/internal/verifh/world"
 	"github.com/enbility/spine-go/internal/verifrt/vtime"
 	"github.com/enbility/spine-go/model"
@@ -298,7 +301,129 @@ func c11Families(thorough bool) []*engine.IFamily {
 			})
 			return r
 		}}
-	return []*engine.IFamily{lists, uc}
+	// ---- data sets that are no lists: every function of every feature type whose payload is a plain structure
+	types := c01Types()
+	structs := &engine.IFamily{Name: "struct-snapshots", Chunks: len(types),
+		Rule: "every function of every feature type (lists included, as plain full data sets) on a local server feature and on the remote feature of a peer: value v1 is stored (SetData / notify), the value given to SetData, DataCopy of the local and of the remote feature and the data of the data-change event are photographed, then v2 is stored the same way and stored again; every retained object still equals its photo; non-trivial: all",
+		Run: func(chunk int) engine.IResult {
+			var r engine.IResult
+			now := staticNow
+			vtime.StaticNow = &now
+			defer func() { vtime.StaticNow = nil }()
+			t := types[chunk]
+			fail := func(clause, detail string, fn model.FunctionType) {
+				r.NFails++
+				key := clause + " | function=" + string(fn)
+				for _, f := range r.Fails {
+					if f.Key == key {
+						return
+					}
+				}
+				r.Fails = append(r.Fails, engine.IFail{Key: key, Msg: detail, Input: string(fn)})
+			}
+			rt.Execute(rt.Config{Horizon: 2000000}, func() {
+				c := newC01WorldEv(types, true, true)
+				a := c.w.Peers["A"]
+				ti := chunk
+				rsrv := a.Dev.FeatureByAddress(world.FAddr("dA", []uint{1}, uint(2*ti+2)))
+				for _, fd := range t.fns {
+					fn := fd.FunctionType()
+					if _, ok := c.writab[fn]; !ok {
+						continue
+					}
+					pt := reflect.TypeOf(fd.DataCopyAny()).Elem()
+					val := func(k int) any {
+						v := reflect.New(pt)
+						v.Elem().Set(refl.Fill(pt, 2, k))
+						return v.Interface()
+					}
+					type snap struct {
+						what  string
+						obj   any
+						photo string
+					}
+					var snaps []snap
+					take := func(what string, o any) {
+						if o != nil && !reflect.ValueOf(o).IsNil() {
+							snaps = append(snaps, snap{what, o, world.JSON(o)})
+						}
+					}
+					store := func(k int) {
+						mark := c.w.Mark()
+						given := val(k)
+						c.srv[t.ft].SetData(fn, given)
+						take("the value given to SetData", given)
+						cmd := model.CmdType{}
+						cmd.SetDataForFunction(fn, val(k))
+						a.Deliver(a.Datagram(world.FAddr("dA", []uint{1}, uint(2*ti+2)), c.cli[t.ft].Address(), model.CmdClassifierTypeNotify, false, nil, cmd))
+						rt.WaitIdle()
+						take("DataCopy of the local feature", c.srv[t.ft].DataCopy(fn))
+						if rsrv != nil {
+							take("DataCopy of the remote feature", rsrv.DataCopy(fn))
+						}
+						for _, e := range c.w.EventsSince(mark) {
+							if e.Type == api.EventTypeDataChange && e.Data != nil {
+								take("the data of a data-change event", e.Data)
+							}
+						}
+					}
+					r.Evals++
+					r.Nontrivial++
+					for _, k := range []int{1, 2, 2, 1} {
+						store(k)
+						for _, sn := range snaps {
+							if now := world.JSON(sn.obj); now != sn.photo {
+								fail(sn.what+" changed after a later update", fmt.Sprintf("photo=%.400s\n now=%.400s", sn.photo, now), fn)
+							}
+						}
+					}
+				}
+			})
+			return r
+		}}
+	// ---- data the stack produces itself: the heartbeat
+	hb := &engine.IFamily{Name: "heartbeat-snapshots", Chunks: 1,
+		Rule: "the heartbeat data of a local entity (timeouts 4 s and 60 s): DataCopy of the local feature and the payload of the notification are retained after the first refresh and after each of three further refreshes (virtual clock) and compared with their photos after every later refresh; non-trivial: all",
+		Run: func(int) engine.IResult {
+			var r engine.IResult
+			for _, to := range []time.Duration{4 * time.Second, time.Minute} {
+				rt.Execute(rt.Config{}, func() {
+					h := newHBWorld(to, true)
+					h.f.AddFunctionType(fnHB, true, false)
+					rt.WaitIdle()
+					type snap struct {
+						obj   any
+						photo string
+					}
+					var snaps []snap
+					for i := 0; i < 4; i++ {
+						if d := h.f.DataCopy(fnHB); d != nil {
+							snaps = append(snaps, snap{d, world.JSON(d)})
+						}
+						rt.Advance(to)
+						rt.WaitIdle()
+						r.Evals++
+						r.Nontrivial++
+						for _, sn := range snaps {
+							if now := world.JSON(sn.obj); now != sn.photo {
+								r.NFails++
+								key := "heartbeat data obtained from the local feature changed after a later refresh"
+								dup := false
+								for _, f := range r.Fails {
+									dup = dup || f.Key == key
+								}
+								if !dup {
+									r.Fails = append(r.Fails, engine.IFail{Key: key, Msg: fmt.Sprintf("timeout=%v photo=%s now=%s", to, sn.photo, now)})
+								}
+							}
+						}
+					}
+					h.hm.StopHeartbeat()
+				})
+			}
+			return r
+		}}
+	return []*engine.IFamily{lists, uc, structs, hb}
 }
 
 func c11Scenarios() []*engine.SScenario {
